@@ -19,8 +19,28 @@ def mkEnv (names : List (Bytes × Bytes)) (item values : Item) : Option Env := d
   let e ← e.load item
   e.load values
 
-/-- `Language.Match` -/
-def langMatch (expr : Bytes) (item : Item) (names : List (Bytes × Bytes)) (values : Item) : Except IErr Bool :=
+/-- `[A-Za-z0-9_]` -/
+def isWord (c : Nat) : Bool := Lexer.isLetter c || (48 ≤ c && c ≤ 57) || c == 95
+
+/-- `regexp ":[A-Za-z0-9_]+"`, `FindAllString`: every maximal `:word` of the text, leftmost first
+    (`cur`: the word characters read since the last `:`, newest first) -/
+def valuePlaceholdersGo : Bytes → Option Bytes → List Bytes
+  | [], none => []
+  | [], some w => if w.isEmpty then [] else [58 :: w.reverse]
+  | c :: cs, none => if c == 58 then valuePlaceholdersGo cs (some []) else valuePlaceholdersGo cs none
+  | c :: cs, some w =>
+    if isWord c then valuePlaceholdersGo cs (some (c :: w))
+    else (if w.isEmpty then [] else [58 :: w.reverse]) ++
+      (if c == 58 then valuePlaceholdersGo cs (some []) else valuePlaceholdersGo cs none)
+
+def valuePlaceholders (s : Bytes) : List Bytes := valuePlaceholdersGo s none
+
+/-- `undefinedValue`: a `:value` placeholder of the expression that did not come with the request -/
+def undefinedValue (expr : Bytes) (values : Item) : Bool :=
+  (valuePlaceholders expr).any fun p => !ahas p values
+
+/-- `Language.Match` after the placeholder check -/
+def langMatchCore (expr : Bytes) (item : Item) (names : List (Bytes × Bytes)) (values : Item) : Except IErr Bool :=
   match Parser.parseCond expr with
   | .syntaxErr => .error .syntax
   | .outOfFuel => .error .outOfFuel
@@ -32,8 +52,12 @@ def langMatch (expr : Bytes) (item : Item) (names : List (Bytes × Bytes)) (valu
       | .ok b => .ok b
       | .error _ => .error .syntax
 
-/-- `Language.Update`: the item after the update -/
-def langUpdate (expr : Bytes) (item : Item) (names : List (Bytes × Bytes)) (values : Item) : Except IErr Item :=
+/-- `Language.Match` -/
+def langMatch (expr : Bytes) (item : Item) (names : List (Bytes × Bytes)) (values : Item) : Except IErr Bool :=
+  if undefinedValue expr values then .error .syntax else langMatchCore expr item names values
+
+/-- `Language.Update` after the placeholder check: the item after the update -/
+def langUpdateCore (expr : Bytes) (item : Item) (names : List (Bytes × Bytes)) (values : Item) : Except IErr Item :=
   match Parser.parseUpdate expr with
   | .syntaxErr => .error .syntax
   | .outOfFuel => .error .outOfFuel
@@ -44,6 +68,10 @@ def langUpdate (expr : Bytes) (item : Item) (names : List (Bytes × Bytes)) (val
       match Eval.evalUpdate env e with
       | .ok env' => .ok (env'.apply item (values.map (·.1)))
       | .error _ => .error .syntax
+
+/-- `Language.Update` -/
+def langUpdate (expr : Bytes) (item : Item) (names : List (Bytes × Bytes)) (values : Item) : Except IErr Item :=
+  if undefinedValue expr values then .error .syntax else langUpdateCore expr item names values
 
 /-- `hashExpressionKey`: fields separated by the four white-space bytes, joined by one space -/
 def normWS (s : Bytes) : Bytes :=
